@@ -143,6 +143,39 @@ func init() {
 		w.Line("/-- Response.FetchPayload: stream branch, then the HEAD guard, then the size checks -/")
 		w.Line("def fetchPayloadHeadGuard : Bool := %s", Bool(iStream >= 0 && iHead > iStream && iLarge > iHead))
 
+		// ---- memory cache: a hit answers from a copy of the entry, Store snapshots a copy
+		bc, err := r.Func(pool, "ServerPool", "buildResponseFromCache")
+		if err != nil {
+			return err
+		}
+		stmts = nil
+		for _, s := range bc.Body.List {
+			stmts = append(stmts, r.Src(s))
+		}
+		w.Line("/-- the statements of `buildResponseFromCache` -/")
+		w.Line("def cacheHitBody : List String := %s", StrList(stmts))
+		st, err := r.Func("pkg/filters/proxy/memorycache.go", "MemoryCache", "Store")
+		if err != nil {
+			return err
+		}
+		entry := ""
+		ast.Inspect(st.Body, func(n ast.Node) bool {
+			if cl, ok := n.(*ast.CompositeLit); ok && r.Src(cl.Type) == "CacheEntry" {
+				entry = r.Src(cl)
+			}
+			return true
+		})
+		w.Line("/-- the entry `MemoryCache.Store` creates -/")
+		w.Line("def cacheStoreEntry : String := %s", Str(entry))
+		dh, err := r.Func(pool, "ServerPool", "doHandle")
+		if err != nil {
+			return err
+		}
+		iBuild := stmtIndex(r, dh.Body, "sp.buildResponse(spCtx)")
+		iStore := stmtIndex(r, dh.Body, "sp.memoryCache.Store(spCtx.req, spCtx.resp)")
+		w.Line("/-- doHandle stores the response right after buildResponse, i.e. before any later filter runs -/")
+		w.Line("def cacheStoreAfterBuild : Bool := %s", Bool(iBuild >= 0 && iStore > iBuild))
+
 		mx, err := r.Func("pkg/object/httpserver/mux.go", "muxInstance", "serveHTTP")
 		if err != nil {
 			return err
